@@ -155,12 +155,20 @@ def refEval {V S} (prim : Prim V S) (e : E V) (target : V) (s : S) : Except RefE
 
 /-! ### which failures are PathAccessErrors -/
 
-/-- the exception classes glom documents as access failures, per kind of step
-    (reading 6.1 of DESIGN.md: a failing *call* keeps the called function's exception) -/
+/-- the exception classes that are access failures, per kind of step (reading 6.1 of
+    DESIGN.md: a failing *call* keeps the called function's exception).  For an arithmetic
+    step: every class a builtin arithmetic operation raises on the modelled values —
+    TypeError (operand types), ZeroDivisionError (`/ // %` by zero, a zero base to a negative
+    power), OverflowError (`float ** big`, an int beyond the range of a double meeting a float,
+    `seq * huge`), ValueError (`str % x` with a malformed format) — whatever the right
+    operand is.  The `except` clause of the branch must COVER each of them: name the class
+    or one of its bases (`ArithmeticError` covers ZeroDivisionError and OverflowError);
+    `caughtBy` decides that on the exception table regenerated from Python's own class
+    hierarchy (`ExcFacts`), as the model of the loop does. -/
 def docCaught : Kind → List String
   | .getattr => ["AttributeError"]
   | .getitem => ["KeyError", "IndexError", "TypeError"]
-  | .bin _ | .un _ => ["TypeError", "ZeroDivisionError"]
+  | .bin _ | .un _ => ["TypeError", "ZeroDivisionError", "OverflowError", "ValueError"]
   | _ => []
 
 def documented (kind : Kind) (e : PyExc) : Bool := (docCaught kind).contains e.cls
@@ -258,7 +266,11 @@ def allKinds : List Kind :=
    .handler, .star, .starstar, .other]
 
 /-- per kind of operation: the branch that performs it turns the documented
-    classes into PathAccessErrors; the call branch catches nothing -/
+    classes into PathAccessErrors — UNCONDITIONALLY: the extractor lists a class of an
+    `except` clause only when the handler's whole body is
+    `pae = PathAccessError(e, Path(_t), <position>)`; a handler that tests something or
+    re-raises is reported as an unrecognised shape and its classes (and those of the handlers
+    it may shadow) are not listed, so this obligation fails —; the call branch catches nothing -/
 def kindsOk (F : Facts) : Bool :=
   allKinds.all (fun kind =>
     (docCaught kind).all (fun n => caughtBy F (caughtOfKind F kind) ⟨n⟩) &&
